@@ -87,7 +87,12 @@ def check_c01(pid, tier, replay):
     rng = random.Random(vc.seed() * 7919 + 1)
 
     def rerun(hist):
-        f, _, _ = vtrace.run_histories(pid + "r", HARNESS, TRACE, [hist], nchunks=1, htimeout=300, tlc_timeout=300)
+        hist = list(hist)
+        if not hist or hist[-1].get("e") != "Done":        # conclude() re-runs the prefix up to the failing call
+            hist.append({"e": "Done"})
+        f, _, st = vtrace.run_histories(pid + "r", HARNESS, TRACE, [hist], nchunks=1, htimeout=300, tlc_timeout=300)
+        if st["infra"]:
+            print("INFRA (re-run):", st["infra"][0][:600])
         return f
 
     if replay:
